@@ -392,10 +392,7 @@ static std::string cmd_alloc(bool fixed0, const std::vector<std::string>& toks) 
         } else if (t[0] == 'r') {
             void* src = slots[v[0]];
             void* p = GivMMFreeList::resize(src, (size_t) v[1], (size_t) v[2]);
-            if (!src) {   // returns the block header itself (recorded defect): the data begins HDR bytes further
-                void* data = (char*) p + HDR; slots.push_back(data);
-                out << addr_id(data) << "/" << header_index(data) << "!hdr ";
-            } else { slots.push_back(p); out << addr_id(p) << "/" << header_index(p) << " "; }
+            slots.push_back(p); out << addr_id(p) << "/" << header_index(p) << " ";     // (src == 0: see the resize0 probe)
         }
     }
     std::vector<std::pair<int, std::vector<const void*> > > lists;
